@@ -71,6 +71,8 @@ type Contract struct {
 	Grants   []*Clause   // assumed at call sites, not proved (abstract facts the unit introduces)
 	LitEnsures  map[int][]*Clause // postconditions of the N-th function literal (litresult = its result)
 	LitRequires map[int][]*Clause // assumptions on the parameters of the N-th function literal
+	LitInvariants map[int][]*Clause // preserved by every invocation of the N-th function literal
+	LitOkInvariants map[int][]*Clause // preserved by every invocation that returns a nil error
 }
 
 // SinkSpec: coarse-mode call-site rule (requires on calls matching a pattern).
@@ -435,8 +437,8 @@ func (cs *ContractSet) loadContractFile(path, pkgPath string) error {
 				// lit N requires expr : assumption on the parameters of the N-th function literal
 				fs := strings.SplitN(rest, " ", 3)
 				num, err := strconv.Atoi(fs[0])
-				if len(fs) < 3 || err != nil || (fs[1] != "requires" && fs[1] != "ensures") {
-					return fmt.Errorf("%s:%d: lit wants `N requires|ensures expr`", path, rl.line)
+				if len(fs) < 3 || err != nil || (fs[1] != "requires" && fs[1] != "ensures" && fs[1] != "invariant" && fs[1] != "okinvariant") {
+					return fmt.Errorf("%s:%d: lit wants `N requires|ensures|invariant expr`", path, rl.line)
 				}
 				p = &pend{kind: "lit." + fs[1], text: strings.TrimSpace(fs[2]), line: rl.line, loop: num}
 			} else if word == "loop" {
@@ -698,6 +700,37 @@ func (cs *ContractSet) addClause(cur *Contract, kind string, loop int, text, fil
 			cur.LitEnsures = map[int][]*Clause{}
 		}
 		cur.LitEnsures[loop] = append(cur.LitEnsures[loop], c)
+	case "lit.invariant":
+		// preserved by every invocation of the callback: holds at the call,
+		// assumed on entry to the literal and after the call, proved at the
+		// literal's returns
+		c, err := cs.mkClause(text, file, line)
+		if err != nil {
+			return err
+		}
+		if c.Label == "" {
+			c.Label = fmt.Sprintf("li%d", loop)
+		}
+		if cur.LitInvariants == nil {
+			cur.LitInvariants = map[int][]*Clause{}
+		}
+		cur.LitInvariants[loop] = append(cur.LitInvariants[loop], c)
+	case "lit.okinvariant":
+		// like lit.invariant, but only invocations that return a nil error
+		// have to preserve it, and it is assumed after the call only when the
+		// call itself returned a nil error (the callee is assumed to return
+		// nil only if every invocation of the callback did)
+		c, err := cs.mkClause(text, file, line)
+		if err != nil {
+			return err
+		}
+		if c.Label == "" {
+			c.Label = fmt.Sprintf("lo%d", loop)
+		}
+		if cur.LitOkInvariants == nil {
+			cur.LitOkInvariants = map[int][]*Clause{}
+		}
+		cur.LitOkInvariants[loop] = append(cur.LitOkInvariants[loop], c)
 	case "lit.requires":
 		c, err := cs.mkClause(text, file, line)
 		if err != nil {
